@@ -16,6 +16,19 @@
 //! final state in which an error-free session is still waiting (the other side's `Done` never
 //! comes) is a missing `Done`. With live mode no side may fail with an unexpected-protocol-message
 //! error (the stray sync message of the statement).
+//!
+//! Part `backpressure`: the same oracle over transports that push back. A sink may have accepted a
+//! message (`start_send`, that is what is on the wire and what the transcript records) while its
+//! flush is still pending, and inbound messages arrive in that window. Two mechanisms, alone and
+//! combined: a *flush gate* (flush completes when the harness grants it, at generated points, in any
+//! order relative to delivering messages to the readers) and small per-direction capacities
+//! (0/1/2/4, `futures mpsc` semantics: flush completes when the reader took the message). With
+//! bounded capacities a pair of real sessions can run into the known deadlock K-C21 (both sides
+//! blocked inside a send); termination is C21's business, so there a stuck final state is not
+//! judged here - only the grammar of what was written. With the gate alone (unbounded capacity, the
+//! harness grants every flush eventually) the transport cannot block a session for ever, so the
+//! missing-`Done` rule stays in force. On every transcript additionally: no `Operation` message
+//! appears twice (a side serves every needed log range once).
 
 use std::collections::BTreeMap;
 use std::sync::Arc;
@@ -28,7 +41,7 @@ use serde::{Deserialize, Serialize};
 
 use crate::memstore::MemStore;
 use crate::pipe::Wire;
-use crate::session::{MutKind, Mutation, PairConfig, PairOutcome, Proto, SideOutcome, Tracked, block_on, run_pair, wire_tags};
+use crate::session::{GateConfig, GateSchedule, MutKind, Mutation, PairConfig, PairOutcome, Proto, SideOutcome, Tracked, block_on, run_pair_gated, wire_tags};
 use crate::world::{Ext, HStore, LogIdT, ReplicaModel, Side, World, WorldSpec, build_replica, build_world, expected_delivery, replica_model, session_logs, world_spec};
 
 #[derive(Clone, Debug, Serialize, Deserialize)]
@@ -55,6 +68,47 @@ struct Case {
     store: u8,
     schedule: Vec<bool>,
     mutations: Vec<MutSpec>,
+    /// `None` = unbounded pipes, manual relay (part `mutations`).
+    #[serde(default)]
+    transport: Option<Transport>,
+}
+
+/// Back-pressure of the two directions (part `backpressure`).
+#[derive(Clone, Debug, Serialize, Deserialize)]
+struct Transport {
+    /// Flush gate per direction (A->B, B->A): `None` off, `Some(slack)` on.
+    gate: [Option<u8>; 2],
+    /// Capacity per direction: `None` unbounded, else `futures mpsc` buffer size.
+    buffer: [Option<u8>; 2],
+    /// Messages reach the reader only when the harness releases them (else immediately).
+    manual: bool,
+    /// Harness decisions whenever a flush grant is among the possible actions.
+    picks: Vec<u16>,
+    release_weight: u8,
+}
+
+impl Transport {
+    fn bounded(&self) -> bool {
+        self.buffer.iter().any(|b| b.is_some())
+    }
+
+    fn gated(&self) -> bool {
+        self.gate.iter().any(|g| g.is_some())
+    }
+}
+
+/// No `Operation` message twice in one side's transcript.
+fn check_no_duplicate_operation(side: Side, t: &[Wire]) -> Result<(), String> {
+    let mut seen: Vec<&Vec<u8>> = Vec::new();
+    for (i, w) in t.iter().enumerate() {
+        if let Wire::Operation { header, .. } = w {
+            if seen.contains(&header) {
+                return Err(format!("side {} wrote {:?}: message {i} repeats an Operation already written", side.name(), wire_tags(t)));
+            }
+            seen.push(header);
+        }
+    }
+    Ok(())
 }
 
 /// Transcript grammar. `complete` = the session returned `Ok`.
@@ -251,16 +305,40 @@ async fn run_case<S: HStore>(store_a: S, store_b: S, case: &Case, world: Arc<Wor
     let plan_a = plan_for(Side::A, case, &world, &ma, &mb, authors_a);
     let plan_b = plan_for(Side::B, case, &world, &mb, &ma, authors_b);
     let planned = plan_a.len() + plan_b.len();
+    let tr = case.transport.as_ref();
     let cfg = PairConfig {
         proto,
-        buffer_ab: None,
-        buffer_ba: None,
-        manual: true,
+        buffer_ab: tr.and_then(|t| t.buffer[0]).map(usize::from),
+        buffer_ba: tr.and_then(|t| t.buffer[1]).map(usize::from),
+        manual: tr.map(|t| t.manual).unwrap_or(true),
         schedule: case.schedule.clone(),
     };
+    // No side can write more than Have, PreSync, Done, Close and every operation of the world once.
+    let max_wire = Some(world.total_ops + 8);
+    let gate = match tr {
+        None => GateConfig {
+            schedule: GateSchedule {
+                max_wire,
+                ..Default::default()
+            },
+            ..Default::default()
+        },
+        Some(t) => GateConfig {
+            gate_ab: t.gate[0].map(usize::from),
+            gate_ba: t.gate[1].map(usize::from),
+            schedule: GateSchedule {
+                picks: t.picks.clone(),
+                release_weight: t.release_weight as usize,
+                max_wire,
+            },
+        },
+    };
+    // With a bounded capacity two real sessions can block each other inside a send (K-C21,
+    // termination is C21): a stuck final state is then not a verdict about `Done`.
+    let judge_stuck = !tr.map(|t| t.bounded()).unwrap_or(false);
     let ta = Tracked::new(store_a.clone(), world.clone(), plan_a);
     let tb = Tracked::new(store_b.clone(), world.clone(), plan_b);
-    let out: PairOutcome = run_pair(ta, tb, &world, &ma, &mb, &cfg).await;
+    let out: PairOutcome = run_pair_gated(ta, tb, &world, &ma, &mb, &cfg, &gate).await;
 
     let describe = |o: &PairOutcome| {
         format!(
@@ -278,7 +356,16 @@ async fn run_case<S: HStore>(store_a: S, store_b: S, case: &Case, world: Arc<Wor
         let o = out.side(side);
         let complete = matches!(o.result, Some(Ok(())));
         check_transcript(side, &o.transcript, complete, live).map_err(|e| format!("{e} [{}]", describe(&out)))?;
+        check_no_duplicate_operation(side, &o.transcript).map_err(|e| format!("{e} [{}]", describe(&out)))?;
     }
+    // Unreachable with the two checks above in force (more messages than operations exist means a
+    // repeated Operation or a sync message after Done); kept so that an abandoned run is never silent.
+    ensure!(
+        !out.wire_overflow,
+        "a side wrote more messages than Have, PreSync, Done, Close and all {} operations of the world together [{}]",
+        world.total_ops,
+        describe(&out)
+    );
     let errors: Vec<(Side, &String)> = [Side::A, Side::B]
         .into_iter()
         .filter_map(|s| match &out.side(s).result {
@@ -297,7 +384,7 @@ async fn run_case<S: HStore>(store_a: S, store_b: S, case: &Case, world: Arc<Wor
     }
     if errors.is_empty() {
         ensure!(
-            !out.stuck,
+            !(out.stuck && judge_stuck),
             "sessions cannot finish: no session failed, every written message was delivered, yet a side still waits (a Done is missing) [{}]",
             describe(&out)
         );
@@ -315,8 +402,30 @@ async fn run_case<S: HStore>(store_a: S, store_b: S, case: &Case, world: Arc<Wor
     let ca = classify_side(&world, &out.a, &out.b, authors_a);
     let cb = classify_side(&world, &out.b, &out.a, authors_b);
     let any = |f: fn(&SideClass) -> bool| f(&ca) || f(&cb);
-    let nontrivial = any(|c| c.between_removed_needed);
+    let ops_written = |o: &SideOutcome| o.transcript.iter().filter(|w| matches!(w, Wire::Operation { .. })).count();
+    let both_send = ops_written(&out.a) > 0 && ops_written(&out.b) > 0;
+    let inbound_in_window = out.inbound_while_flush_pending.iter().sum::<usize>();
+    let nontrivial = match tr {
+        None => any(|c| c.between_removed_needed),
+        // Either the harness observed the window directly (manual relay) or, with immediate
+        // delivery, both sides wrote operations over a pushing-back transport (every write of one
+        // side then lands while the other side's flush may be pending).
+        Some(t) => inbound_in_window > 0 || (!t.manual && both_send),
+    };
+    let bp = tr.is_some();
     Ok(CaseOk::nontrivial(nontrivial)
+        .label_if(bp && inbound_in_window > 0, "inbound_delivered_while_sync_loop_flush_pending")
+        .label_if(bp && inbound_in_window >= 3, "inbound_delivered_while_sync_loop_flush_pending_3plus")
+        .label_if(bp && both_send, "both_sides_wrote_operations")
+        .label_if(bp && out.stuck && !judge_stuck, "stuck_over_bounded_transport_not_judged")
+        .label_if(bp && out.both_ok(), "both_sessions_completed")
+        .label_if(tr.map(|t| t.gated() && !t.bounded()).unwrap_or(false), "transport_gate_only")
+        .label_if(tr.map(|t| !t.gated() && t.bounded()).unwrap_or(false), "transport_bounded_only")
+        .label_if(tr.map(|t| t.gated() && t.bounded()).unwrap_or(false), "transport_gate_and_bounded")
+        .label_if(tr.map(|t| t.buffer.contains(&Some(0))).unwrap_or(false), "capacity_zero_direction")
+        .label_if(tr.map(|t| !t.manual).unwrap_or(false), "immediate_delivery")
+        .label_if(bp && case.mutations.is_empty(), "without_store_mutations")
+        .label_if(bp && !case.mutations.is_empty(), "with_store_mutations")
         .label_if(any(|c| c.between_removed_needed), "removal_between_have_and_decision_in_needed_log")
         .label_if(any(|c| c.emptied_all_needs), "all_needed_ranges_emptied_before_decision")
         .label_if(any(|c| c.sending_phase_removed), "removal_while_sending")
@@ -382,6 +491,52 @@ fn strategy(max_authors: usize, max_logs: usize, max_ops: usize) -> impl Strateg
             store,
             schedule,
             mutations,
+            transport: None,
+        })
+}
+
+fn transport() -> impl Strategy<Value = Transport> {
+    let capacity = || prop_oneof![3 => Just(0u8), 3 => Just(1u8), 2 => Just(2u8), 1 => Just(4u8)];
+    let slack = || prop_oneof![2 => Just(0u8), 1 => Just(1u8)];
+    // (gate, buffer): gate only / bounded only / both; a direction may stay free.
+    let shape = prop_oneof![
+        5 => (slack(), slack()).prop_map(|(a, b)| ([Some(a), Some(b)], [None, None])),
+        1 => (slack(), any::<bool>()).prop_map(|(s, ab)| (if ab { [Some(s), None] } else { [None, Some(s)] }, [None, None])),
+        3 => (capacity(), capacity()).prop_map(|(a, b)| ([None, None], [Some(a), Some(b)])),
+        1 => (capacity(), any::<bool>()).prop_map(|(c, ab)| ([None, None], if ab { [Some(c), None] } else { [None, Some(c)] })),
+        2 => (slack(), slack(), capacity(), capacity()).prop_map(|(sa, sb, ca, cb)| ([Some(sa), Some(sb)], [Some(ca), Some(cb)])),
+    ];
+    (
+        shape,
+        prop::bool::weighted(0.7),
+        prop::collection::vec(any::<u16>(), 0..48),
+        prop_oneof![Just(1u8), Just(2u8), Just(4u8)],
+    )
+        .prop_map(|((gate, buffer), manual, picks, release_weight)| Transport {
+            gate,
+            buffer,
+            manual,
+            picks,
+            release_weight,
+        })
+}
+
+fn bp_strategy(max_authors: usize, max_logs: usize, max_ops: usize) -> impl Strategy<Value = Case> {
+    (
+        world_spec(max_authors, max_logs, max_ops, 20),
+        prop_oneof![3 => Just(0u8), 3 => Just(1u8), 2 => Just(2u8), 2 => Just(3u8)],
+        prop_oneof![3 => Just(0u8), 1 => Just(1u8)],
+        prop::collection::vec(any::<bool>(), 0..24),
+        prop_oneof![1 => Just(vec![]), 1 => prop::collection::vec(mut_spec(), 1..=3)],
+        transport(),
+    )
+        .prop_map(|(world, proto, store, schedule, mutations, transport)| Case {
+            world,
+            proto,
+            store,
+            schedule,
+            mutations,
+            transport: Some(transport),
         })
 }
 
@@ -403,6 +558,24 @@ pub fn run(mut ctx: Ctx) -> ! {
         )
         .min_nontrivial(0.15),
         move || strategy(authors, logs, ops),
+        check,
+    );
+    ctx.assume("back-pressure part: a stuck final state over a bounded-capacity transport is not judged (two real sessions can block each other inside a send, K-C21; termination is C21) - only the grammar of what was written; with the flush gate alone the harness grants every flush eventually, so the missing-Done rule applies");
+    ctx.assume("a side never writes the same Operation message twice (every needed log range is served once); asserted on the wire transcript together with the grammar");
+    ctx.run_prop(
+        Part::new(
+            "backpressure",
+            "C19 worlds (prune flags 20 %) with 0-3 store mutations (half of the cases none) over transports that push back: flush gate (a message \
+             accepted by start_send stays unflushed - poll_flush Pending, poll_ready Pending beyond slack 0/1 - until the harness grants it at a \
+             generated point, interleaved with delivering messages to the readers), per-direction capacities 0/1/2/4 (futures mpsc semantics), or \
+             both; relay message by message (70 %) or immediate delivery; LogSync / TopicLogSync / live mode; memory and SQLite; the wire transcript \
+             is every item accepted by start_send; non-trivial = an inbound message was handed to a side while that side's sink held an accepted, \
+             unflushed Operation/Done of its sync loop (immediate delivery: both sides wrote operations over the pushing-back transport)",
+            1_500,
+            40_000,
+        )
+        .min_nontrivial(0.1),
+        move || bp_strategy(authors, logs, ops),
         check,
     );
     ctx.finish()
